@@ -538,6 +538,8 @@ def check_response_view(idx):
     partly = set((getattr(idx, 'normalization', None) or {}).get('inlined', {}) or {})      # inlined at some call sites, left at others
     view, done = X.inline_pure_calls(idx, fi0, only=set(getattr(idx, 'unreviewed', None) or []) | partly)
     X.settle_unreviewed(idx, done, {fi0.qualname})
+    if any(isinstance(n, ast.For) for n in walk_own(view.node)):
+        view = X.unrolled(view)          # loops over a literal table of rows (e.g. the two minimum checks) are read row by row
     return view
 
 
@@ -755,6 +757,10 @@ def make_guards(idx, fi):
             if who is not None:
                 key = 's_match' if who == 'S' else 'e_match'
                 return lambda w: (not w[key]) == positive
+            if isinstance(operand, ast.Call) and X.m("self.construct_message(__, __)", operand) is not None:
+                # construct_message returns a grading record or raises (D4.POLICY decides that); where the comparison is
+                # evaluated at all, the result is not None
+                return lambda w: not positive
             return None
         who = regex_subject(e)
         if who is not None:
@@ -1163,7 +1169,10 @@ _W5I_FIXED2 = "        if not self.config['case_sensitive']:\n            cleane
 _W5J_HELPER = ('    def check_response(self, answer, student_input, **kwargs):\n', "    def satisfies_pattern(self, text):\n        pattern = self.config['validation_pattern']\n        return pattern is None or re.fullmatch(pattern, text) is not None\n\n    def check_response(self, answer, student_input, **kwargs):\n")
 _W5J_BODY = ('        # Apply the validation pattern\n        pattern = self.config[\'validation_pattern\']\n        if pattern is not None:\n            # The pattern must match the entire input (fullmatch, rather than\n            # appending "$", so that alternations like \'cat|dog\' are anchored too)\n            if not accept_any:\n                # Make sure that expect matches the pattern\n                # If it doesn\'t, a student can never get this right\n                if re.fullmatch(pattern, expect) is None:\n                    msg = "The provided answer \'{}\' does not match the validation pattern \'{}\'"\n                    raise ConfigError(msg.format(answer[\'expect\'], pattern))\n\n            # Check to see if the student input matches the validation pattern\n            if re.fullmatch(pattern, student) is None:\n                return self.construct_message(self.config[\'invalid_msg\'],\n                                              self.config[\'explain_validation\'])\n\n', '        if not accept_any and not self.satisfies_pattern(expect):\n            msg = "The provided answer \'{}\' does not match the validation pattern \'{}\'"\n            raise ConfigError(msg.format(answer[\'expect\'], self.config[\'validation_pattern\']))\n\n        if not self.satisfies_pattern(%s):\n            return self.construct_message(self.config[\'invalid_msg\'],\n                                          self.config[\'explain_validation\'])\n\n')
 
+_W5R_TABLE = ("            msg = None\n            chars = len(student)\n            if chars < min_length:\n                msg = ('Your response is too short ({chars}/{min} characters)'\n                       ).format(chars=chars, min=min_length)\n\n            # Check for minimum word count (more important than character count)\n            words = len(student.split())\n            if words < self.config['min_words']:\n                msg = ('Your response is too short ({words}/{min} words)'\n                       ).format(words=words, min=self.config['min_words'])\n\n", "            requirements = ((len(student), min_length, 'characters'),\n                            (len(student.split()), self.config['min_words'], 'words'))\n            msg = None\n            for count, minimum, units in requirements:\n                if count < minimum:\n                    msg = 'Your response is too short ({count}/{min} {units})'.format(count=count, min=minimum, units=units)\n\n")
+
 MUTANTS = [
+    Mutant('minimums-table-compares-with-le', SGF, _W5R_TABLE[0], _W5R_TABLE[1].replace('count < minimum', 'count <= minimum'), 'D34'),
     Mutant('pattern-helper-given-uncleaned-submission', SGF, [_W5J_HELPER, (_W5J_BODY[0], _W5J_BODY[1] % 'student_input')], None, 'D2'),
     Mutant('strip-all-returns-before-case-fold', SGF, [_W5I_CONSTS, (_W5I_OLD, _W5I_HEAD + _W5I_SLIP)], None, 'D1'),
     Mutant('expect-not-cleaned', SGF, "        expect = self.clean_input(answer['expect'])", "        expect = str(answer['expect'])", 'D2'),
@@ -1212,6 +1221,7 @@ MUTANTS = [
 ]
 
 BENIGN = [
+    Benign('minimums-as-ordered-table', SGF, _W5R_TABLE[0], _W5R_TABLE[1]),
     Benign('pattern-test-in-helper', SGF, [_W5J_HELPER, (_W5J_BODY[0], _W5J_BODY[1] % 'student')], None),
     Benign('case-fold-last-strip-all-elif', SGF, [_W5I_CONSTS, (_W5I_OLD, _W5I_HEAD + _W5I_FIXED)], None),
     Benign('strip-all-early-return-after-case-fold', SGF, [_W5I_CONSTS, (_W5I_OLD, _W5I_HEAD + _W5I_FIXED2)], None),
